@@ -185,4 +185,173 @@ theorem rollback_keeps_records (fs : FS) (wf wo sf : Nat) (loc : Loc) (f : Bytes
         rw [if_pos (by omega), if_pos h2, List.drop_take, List.take_take]
         rw [show min loc.len (wo - loc.off) = loc.len by omega]
 
+
+/-! ## reconcile is idempotent -/
+
+open ElaVerif.BlockStore (scan u32 rdLe32 rd8) in
+theorem scan_spec' : ∀ (fs : Files) (n i : Nat) (acc : Nat × Nat),
+    (∀ j, j < n → ∃ f, fileAt fs j = some f) → fileAt fs n = none →
+    scan fs i acc = if n = 0 then acc else (i + n - 1, u32 ((fileAt fs (n - 1)).getD []).length)
+  | [], n, i, acc, hall, _ => by
+    cases n with
+    | zero => simp [scan]
+    | succ n => obtain ⟨f, hf⟩ := hall 0 (by omega); simp [fileAt] at hf
+  | none :: fs, n, i, acc, hall, _ => by
+    cases n with
+    | zero => simp [scan]
+    | succ n => obtain ⟨f, hf⟩ := hall 0 (by omega); simp [fileAt] at hf
+  | some f :: fs, n, i, acc, hall, hnone => by
+    cases n with
+    | zero => simp [fileAt] at hnone
+    | succ n =>
+      have hall' : ∀ j, j < n → ∃ g, fileAt fs j = some g := by
+        intro j hj; have := hall (j + 1) (by omega); simpa [fileAt] using this
+      have hnone' : fileAt fs n = none := by simpa [fileAt] using hnone
+      have ih := scan_spec' fs n (i + 1) (i, u32 f.length) hall' hnone'
+      simp only [scan, ih]
+      cases n with
+      | zero => simp [fileAt]
+      | succ m =>
+        simp only [Nat.add_one_ne_zero, if_false]
+        have : fileAt (some f :: fs) (m + 1 + 1 - 1) = fileAt fs (m + 1 - 1) := by simp [fileAt]
+        rw [this]
+        congr 1
+        omega
+
+/-- every directory has a first missing file -/
+theorem first_gap : ∀ (fs : Files), ∃ n, (∀ j, j < n → ∃ f, fileAt fs j = some f) ∧ fileAt fs n = none
+  | [] => ⟨0, by intro j hj; omega, by simp [fileAt]⟩
+  | none :: _ => ⟨0, by intro j hj; omega, by simp [fileAt]⟩
+  | some f :: fs => by
+    obtain ⟨n, hall, hnone⟩ := first_gap fs
+    refine ⟨n + 1, ?_, by simpa [fileAt] using hnone⟩
+    intro j hj
+    cases j with
+    | zero => exact ⟨f, by simp [fileAt]⟩
+    | succ j => have := hall j (by omega); simpa [fileAt] using this
+
+theorem rdLe32_lt (b : Bytes) : ElaVerif.BlockStore.rdLe32 b < 4294967296 := by
+  have h : ∀ i, ElaVerif.BlockStore.rd8 b i < 256 := fun i => UInt8.toNat_lt _
+  have h0 := h 0; have h1 := h 1; have h2 := h 2; have h3 := h 3
+  unfold ElaVerif.BlockStore.rdLe32; omega
+
+theorem hit_none (fs : FS) (name : String) (h : fs.arm = none) : hit fs name = (fs, false) := by
+  unfold hit; rw [h]
+
+/-- the files after the delete loop of `handleRollback` -/
+def delFiles (wf : Nat) : Nat → Files → Files
+  | 0, fs => fs
+  | n + 1, fs => delFiles wf n (setFile fs (wf + n + 1) none)
+
+theorem rollbackDelete_none (wf : Nat) : ∀ (n : Nat) (fs : FS), fs.arm = none →
+    rollbackDelete wf n fs = ({ fs with files := delFiles wf n fs.files }, false) := by
+  intro n
+  induction n with
+  | zero => intro fs _; rfl
+  | succ n ih =>
+    intro fs h
+    simp only [rollbackDelete]
+    rw [hit_none _ _ (by exact h)]
+    simp only [Bool.false_eq_true, if_false]
+    rw [ih _ (by exact h)]
+    rfl
+
+theorem fileAt_delFiles (wf : Nat) : ∀ (n : Nat) (fs : Files) (i : Nat),
+    fileAt (delFiles wf n fs) i = if wf < i ∧ i ≤ wf + n then none else fileAt fs i := by
+  intro n
+  induction n with
+  | zero => intro fs i; simp only [delFiles]; rw [if_neg (by omega)]
+  | succ n ih =>
+    intro fs i
+    simp only [delFiles]
+    rw [ih]
+    by_cases hi : i = wf + n + 1
+    · subst hi
+      rw [fileAt_setFile_same]
+      split <;> split <;> first | rfl | omega
+    · rw [fileAt_setFile_other _ _ _ _ (by omega)]
+      split <;> split <;> first | rfl | omega
+
+/-- the files after a complete `handleRollback` -/
+def rolledFiles (fs : Files) (wf wo sf : Nat) : Files :=
+  let d := delFiles wf (sf - wf) fs
+  let d := match fileAt d wf with
+    | some _ => d
+    | none => setFile d wf (some [])
+  let f := (fileAt d wf).getD []
+  setFile d wf (some ((f ++ List.replicate (wo - f.length) 0).take wo))
+
+theorem rollback_none (fs : FS) (wf wo sf : Nat) (h : fs.arm = none) :
+    rollback fs wf wo sf = ({ fs with files := rolledFiles fs.files wf wo sf, curFile := wf, curOff := wo }, false) := by
+  unfold rollback
+  rw [rollbackDelete_none _ _ _ h]
+  simp only [Bool.false_eq_true, if_false]
+  cases hf : fileAt (delFiles wf (sf - wf) fs.files) wf with
+  | some f =>
+    simp only []
+    rw [hit_none _ _ (by exact h)]
+    simp only [Bool.false_eq_true, if_false]
+    rw [hit_none _ _ (by exact h)]
+    simp only [rolledFiles, hf]
+  | none =>
+    simp only []
+    rw [hit_none _ _ (by exact h)]
+    simp only [Bool.false_eq_true, if_false]
+    rw [hit_none _ _ (by exact h)]
+    simp only [rolledFiles, hf]
+
+open ElaVerif.BlockStore (scan u32) in
+/-- after a complete rollback to `(wf, wo)` the directory scan finds exactly `(wf, wo)` -/
+theorem scan_rolled (fs : Files) (wf wo : Nat) (hwo : wo < 4294967296)
+    (h : let r := scan fs 0 (0, 0); r.1 > wf ∨ (r.1 = wf ∧ r.2 > wo)) :
+    scan (rolledFiles fs wf wo (scan fs 0 (0, 0)).1) 0 (0, 0) = (wf, wo) := by
+  obtain ⟨n, hall, hnone⟩ := first_gap fs
+  have hs := scan_spec' fs n 0 (0, 0) hall hnone
+  cases n with
+  | zero =>
+    simp only [if_true] at hs
+    rw [hs] at h; simp only [] at h; omega
+  | succ n =>
+    simp only [Nat.add_one_ne_zero, if_false, Nat.zero_add, Nat.add_sub_cancel] at hs
+    rw [hs] at h ⊢
+    simp only [] at h ⊢
+    have hwf : wf ≤ n := by omega
+    obtain ⟨f, hf⟩ := hall wf (by omega)
+    have hd : ∀ i, fileAt (delFiles wf (n - wf) fs) i = if wf < i ∧ i ≤ n then none else fileAt fs i := by
+      intro i; rw [fileAt_delFiles]
+      have : wf + (n - wf) = n := by omega
+      rw [this]
+    have hdw : fileAt (delFiles wf (n - wf) fs) wf = some f := by
+      rw [hd]; rw [if_neg (by omega)]; exact hf
+    have hR : rolledFiles fs wf wo n = setFile (delFiles wf (n - wf) fs) wf (some ((f ++ List.replicate (wo - f.length) 0).take wo)) := by
+      simp only [rolledFiles, hdw, Option.getD_some]
+    have hall' : ∀ j, j < wf + 1 → ∃ g, fileAt (rolledFiles fs wf wo n) j = some g := by
+      intro j hj
+      rw [hR]
+      by_cases hjw : j = wf
+      · subst hjw; rw [fileAt_setFile_same]; exact ⟨_, rfl⟩
+      · rw [fileAt_setFile_other _ _ _ _ (by omega), hd, if_neg (by omega)]
+        exact hall j (by omega)
+    have hnone' : fileAt (rolledFiles fs wf wo n) (wf + 1) = none := by
+      rw [hR, fileAt_setFile_other _ _ _ _ (by omega), hd]
+      by_cases hlt : wf + 1 ≤ n
+      · rw [if_pos ⟨by omega, hlt⟩]
+      · rw [if_neg (by omega)]
+        have : wf + 1 = n + 1 := by omega
+        rw [this]; exact hnone
+    rw [scan_spec' _ (wf + 1) 0 (0, 0) hall' hnone']
+    simp only [Nat.add_one_ne_zero, if_false, Nat.zero_add, Nat.add_sub_cancel]
+    rw [hR, fileAt_setFile_same]
+    simp only [Option.getD_some, List.length_take, List.length_append, List.length_replicate]
+    have : min wo (f.length + (wo - f.length)) = wo := by omega
+    rw [this]
+    unfold u32
+    rw [Nat.mod_eq_of_lt hwo]
+
+theorem DB_flush_flush (d : ElaVerif.Ffldb.DB) : d.flush.flush = d.flush := by
+  unfold ElaVerif.Ffldb.DB.flush
+  split
+  · rfl
+  · simp
+
 end ElaVerif.Crash
